@@ -231,7 +231,7 @@ CHECKS['C17'] = {
 HOOK_COMMITS = ['7321ffc']
 
 NOT_APPLICABLE = [
-    {'property_id': 'C16', 'reason': 'round trip runs through the two link-format scanners, which slice by pointer difference and use trim/find/split_at: Verus has no byte-level str model and Kani exhausts memory on 3-byte inputs (measured, DESIGN.md Appendix B); no contract within reach expresses parse(write(d)) == d'},
+    {'property_id': 'C16', 'reason': 'needs the exact functional behaviour of both link-format scanners (which substrings they yield on the writer\'s exact output, escapes included) composed with the writer and Unquote for all documents: the scanners are verified only for C17 (termination, no panic, substrings in order) over assumed std-string contracts (trim*/find/split_at/pointer difference); a grammar-level induction parse(write(d)) == d over those assumed contracts was not attempted, and Kani exhausts memory on 3-byte inputs (measured, DESIGN.md Appendix B); no check is registered'},
     {'property_id': 'C20', 'reason': 'retention/expiry is decided inside the external lru_time_cache crate from Instant::now(); no contract on coap-lite functions can express elapsed wall-clock time without assuming the property'},
 ]
 _PENDING = 'check not built yet in this session (contract-based route planned in DESIGN.md section 4); not claimed until it passes on the reference tree and fails on seeded mutants'
